@@ -896,6 +896,48 @@ def c14(m, o):
     for k, x in res["derived_outputs"].items():
         if _hex(x) != D.get(k):
             viol.append("include_full_outputs=False changes the value of %s" % k)
+    # a whitelist set between two runs of one object (the documented use: fewer outputs for calibration, more later)
+    names_ = list(D)
+    if len(names_) >= 2:
+        m5, _, _ = impl.build(dict(prog, ops=base_ops))
+        checks += 1
+        try:
+            m5.run(p, solver="euler", jit=False)
+            keep_ = names_[: max(1, len(names_) // 2)]
+            m5.set_derived_outputs_whitelist(list(keep_))
+            m5.run(p, solver="euler", jit=False)
+            got5 = {k: _hex(v) for k, v in m5.derived_outputs.items()}
+            if set(got5) != set(keep_):
+                viol.append("whitelist-after-run: a whitelist %s set after a first run is not applied by the next run: it returns %s"
+                            % (keep_[:3], sorted(got5)[:5]))
+            elif any(got5[k] != D.get(k) for k in got5):
+                viol.append("whitelist-after-run: a whitelist set after a first run changes the values of the kept outputs")
+            m5.set_derived_outputs_whitelist(list(names_))
+            m5.run(p, solver="euler", jit=False)
+            got6 = {k: _hex(v) for k, v in m5.derived_outputs.items()}
+            if set(got6) != set(names_) or any(got6[k] != D.get(k) for k in got6):
+                viol.append("whitelist-after-run: widening the whitelist again does not bring the other outputs back unchanged")
+        except Exception as e:  # noqa
+            if type(e).__name__ == "ObservationTimeLimit":
+                raise
+            viol.append("whitelist-after-run: raises %s" % repr(e)[:80])
+    # ... and through model.run / runner.run: the derived outputs are returned, with the same values
+    for via in ("model.run", "runner.run"):
+        m4, _, _ = impl.build(dict(prog, ops=base_ops))
+        checks += 1
+        try:
+            if via == "model.run":
+                m4.run(p, solver="euler", jit=False, include_full_outputs=False)
+            else:
+                m4.get_runner(p, jit=False, include_full_outputs=False, solver="euler").run(p)
+            got4 = {k: _hex(v) for k, v in m4.derived_outputs.items()}
+            bad4 = [k for k in got4 if got4[k] != D.get(k)]
+            if bad4 or set(got4) != set(res["derived_outputs"]):
+                viol.append("no-full-outputs: %s with include_full_outputs=False returns other derived outputs (%s)" % (via, bad4[:3]))
+        except Exception as e:  # noqa
+            if type(e).__name__ == "ObservationTimeLimit":
+                raise
+            viol.append("no-full-outputs: %s with include_full_outputs=False raises %s instead of returning the derived outputs" % (via, repr(e)[:80]))
     return {"checks": checks, "violations": viol[:12]}
 
 
@@ -1876,7 +1918,7 @@ def c11(m, o):
             try:
                 if c["call"] == "run":
                     mm.run(given, solver=c["solver"], rebuild=bool(c.get("rebuild", False)), jit=False)
-                    key = ("model", tuple(sorted({**defaults, **given}.items())))
+                    key = ("model", tuple(sorted({**defaults, **given}.items())), c["solver"])
                     res = bits(mm)
                 elif c["call"] == "get_runner":
                     kw = {} if c.get("dyn") is None else {"dyn_params": list(c["dyn"])}
